@@ -864,7 +864,7 @@ def discr_switch_after_call(body, call_block):
 
 
 # ----------------------------------------------------------------------------- access paths
-APATH_TRANSPARENT = re.compile(r'(::|^)(deref|deref_mut|borrow|borrow_mut|as_ref|as_mut|get_mut|clone|as_deref|as_deref_mut|as_pin_mut|get_ref|into_inner|project|project_ref|as_pin_ref|new_unchecked|new|get_unchecked_mut|map_unchecked_mut|into_future)$')
+APATH_TRANSPARENT = re.compile(r'(::|^)(deref|deref_mut|borrow|borrow_mut|as_ref|as_mut|get_mut|clone|as_deref|as_deref_mut|as_pin_mut|get_ref|into_inner|project|project_ref|as_pin_ref|new_unchecked|new|get_unchecked_mut|map_unchecked_mut|into_future|get)$')
 
 
 def apath(body, x, depth=0, seen=None):
